@@ -108,6 +108,7 @@ SETUP = {
     'raises': {
         # a raising setUp leaves the layer itself unmarked; what was set up before stays set up
         'Exception': SET_POSTS_EXC + ["G.bad == old(G.bad) + 1"],
+        'EndRun': SET_POSTS_EXC + ["G.bad == old(G.bad) + 1", "options.post_mortem"],
         'MemoryError': SET_POSTS_EXC,
         'OtherBase': SET_POSTS_EXC,
     },
@@ -198,7 +199,7 @@ RUN_TESTS_FN = {
     'requires': [],
     'modifies': ['failures', 'errors', 'skipped', 'G.bad'],
     'ensures': [BADSUM, "result >= 0", "len(failures) >= old(len(failures))", "len(errors) >= old(len(errors))"],
-    'raises': {'EndRun': [], 'OtherBase': [], 'MemoryError': []},
+    'raises': {'EndRun': ["options.post_mortem"], 'OtherBase': [], 'MemoryError': []},
 }
 
 RUN_LAYER = {
@@ -215,7 +216,7 @@ RUN_LAYER = {
                 "len(failures) >= old(len(failures))", "len(errors) >= old(len(errors))"],
     'raises': {
         # containment (C04): for hooks raising Exception subclasses nothing but these leaves run_layer
-        'EndRun': ["closed(setup_layers)", "object not in setup_layers"],
+        'EndRun': ["closed(setup_layers)", "object not in setup_layers", "options.post_mortem"],
         'CanNotTearDown': ["G.ntd", "closed(setup_layers)", "object not in setup_layers", BADSUM,
                            "len(failures) >= old(len(failures))", "len(errors) >= old(len(errors))"],
         'MemoryError': [],
@@ -244,6 +245,7 @@ def hook(name, raises, effect=None):
             effect(E, st, None)
         return out + k(st, NONE)
     handler.__name__ = 'HOOK_%s(returns | raises %s)' % (name, '/'.join(raises))
+    handler.modifies = ['G.bad', 'G.ntd']
     return handler
 
 
